@@ -51,7 +51,7 @@ from ser import Ids, Ser, Unsupported, ser, deser
 from props import c01 as K
 
 LEAN_MODULE = "Optyx.Props.C15"
-EXTRA_MODULES = ["Optyx.Props.PinsC15", "Optyx.Props.BuildTie"]   # transcription anchors (harness/source_pins.py)
+EXTRA_MODULES = ["Optyx.Props.PinsC15", "Optyx.Props.BuildTie", "Optyx.Props.GradIterTie"]   # transcription anchors (harness/source_pins.py)
 THEOREMS = [
     "Optyx.Props.C15.gradIter_eq",
     "Optyx.Props.C15.gradIter_tree",
@@ -71,6 +71,11 @@ THEOREMS = [
     "Optyx.Props.BuildTie.cstep_eq",
     "Optyx.Props.BuildTie.elemsIter_eq",
     "Optyx.Props.BuildTie.buildIterFrame_text",
+    "Optyx.Props.GradIterTie.gstep_bin",
+    "Optyx.Props.GradIterTie.gstep_un",
+    "Optyx.Props.GradIterTie.gstep_seen",
+    "Optyx.Props.GradIterTie.gradIterOrder_text",
+    "Optyx.Props.GradIterTie.gradIterFrame_text",
     "Optyx.Props.PinsC15.anchors",
 ]
 ASSUMPTIONS = [
